@@ -170,6 +170,7 @@ Proof.
       apply in_app_or in Hin. destruct Hin as [Hin|[Hin|[]]].
       * apply Hret. apply in_or_app. left. exact Hin.
       * subst s0. simpl. apply (Hret h). apply in_or_app. right. left. reflexivity.
+  - (* SInstantiateFail *) constructor; assumption.
   - (* SCommit *)
     destruct (held c) as [h|] eqn:Eh; [|constructor; assumption].
     constructor; unfold addrs, all_subs, held_decl in *; simpl in *; rewrite ?Eh in *.
@@ -251,6 +252,15 @@ Lemma pop_pending_state : forall ex c c', conn_state c = conn_state c' -> pop_pe
 Proof.
   intros ex c c' H. unfold conn_state in H. inversion H as [[H1 H2 H3 H4]]. unfold pop_pending. rewrite H1, H2, H3. reflexivity.
 Qed.
+
+(* a failed instantiate() followed by a retry commits exactly what a single successful
+   instantiate() commits, wherever the failure happens among queued operations *)
+Theorem failed_instantiate_then_retry : forall ex c v mid,
+  Forall queue_op mid ->
+  let a := apply_op ex (apply_op ex (run_ops ex (apply_op ex (apply_op ex c SCompile) SInstantiateFail) mid) (SInstantiate v)) SCommit in
+  let b := apply_op ex (apply_op ex (run_ops ex (apply_op ex c SCompile) mid) (SInstantiate v)) SCommit in
+  a = b.
+Proof. intros ex c v mid H. reflexivity. Qed.
 
 (* Operations queued after compile() — between compile and instantiate (mid1) and
    between instantiate and commit (mid2) — belong to the NEXT subroutine: committing the
